@@ -72,6 +72,19 @@ func genOp(t *rapid.T) arith.Case {
 	if gen.Pick(t, 10, "spx") == 0 {
 		c.X = gen.Any(t, c.Ctx, "sx")
 	}
+	if gen.Pick(t, 25, "atlimit") == 0 && c.X.Form == 0 {
+		// operands at the package exponent limits: calls that fail there must not leave
+		// anything behind that later calls can see
+		nd := int32(len(c.X.Coeff))
+		if rapid.Bool().Draw(t, "limtop") {
+			c.X.Exp = gen.Limit - nd + 1 - int32(rapid.IntRange(0, 30).Draw(t, "lo"))
+		} else {
+			c.X.Exp = -gen.Limit + int32(rapid.IntRange(0, 30).Draw(t, "lo"))
+		}
+	}
+	if arith.Binary(op) && gen.Pick(t, 12, "spy") == 0 {
+		c.Y = gen.Special(t, "sy")
+	}
 	if gen.Pick(t, 12, "heap") == 0 && c.X.Form == 0 && op != "exp" && op != "pow" && op != "ln" && op != "log10" && op != "cbrt" {
 		c.X.Coeff = gen.DigitsN(t, rapid.IntRange(39, 80).Draw(t, "hl"), gen.Pick(t, 10, "hs"), "heapc")
 	}
@@ -228,8 +241,10 @@ func check(c Case, st *core.Stats) error {
 		if errStr(a.Err) != errStr(b.Err) || a.Res != b.Res || a.N != b.N {
 			return false
 		}
-		if sysErr(a) {
-			return true // no result is delivered with a system / precision error
+		if sysErr(a) || (a.Err != nil && apd.Condition(m.Ctx.Traps) == 0) {
+			// no result is delivered with a system / precision error, nor with an error that
+			// an internal step of a composite function raised under an empty trap set
+			return true
 		}
 		return core.SameFields(a.D, b.D) && ea == eb
 	}
@@ -238,6 +253,16 @@ func check(c Case, st *core.Stats) error {
 	}
 	if !eq(want, gotAcc, wantX, accX) {
 		return fmt.Errorf("%v: into a fresh destination: %s; into the destination left by %d earlier operations: %s", m, showOut(want, wantX), len(c.History), showOut(gotAcc, accX))
+	}
+	// a destination whose previous contents are the operand itself (d == x)
+	if m.Op != "cmp" && m.Op != "dec.modf" && m.Op != "setstring" {
+		var gotAlias arith.Out
+		var aliasX string
+		xa := m.X.Apd()
+		core.Guard(st, func() { gotAlias, aliasX = run(m, m.Ctx.Apd(), xa, xa, m.Y.Apd()) })
+		if !eq(want, gotAlias, wantX, aliasX) {
+			return fmt.Errorf("%v: into a fresh destination: %s; into the operand itself: %s", m, showOut(want, wantX), showOut(gotAlias, aliasX))
+		}
 	}
 	if s := snap(x); s != xs {
 		return fmt.Errorf("%v: operand x modified: %s -> %s", m, xs, s)
